@@ -8,6 +8,7 @@
 #include "socket_buffered_impl.h" // internal headers, as the repo's internals test does: descriptor of the SUT
 #include "socket_impl.h"
 #include "sockpuppet/socket.h"
+#include "sockpuppet/socket_async.h"
 #include "sockpuppet/socket_buffered.h"
 
 #include <arpa/inet.h>
@@ -53,6 +54,8 @@ struct Ctx
   std::optional<SocketUdp> udp;
   std::optional<SocketUdpBuffered> udpb;
   std::optional<Acceptor> acc;
+  std::optional<Driver> driver;           // C10: the buffered TCP socket handed over to a driver (its receive pool goes along)
+  std::optional<SocketTcpAsync> tcpa;
   int sutFd = -1;
   int peerFd = -1;
   int lsnFd = -1;
@@ -124,6 +127,7 @@ struct Ctx
     stop = true;
     if(drain.joinable()) drain.join();
     heldBufs.clear(); // buffers go back before their pool (inside the socket) is destroyed
+    tcpa.reset(); driver.reset();
     tcp.reset(); tcpb.reset(); udp.reset(); udpb.reset(); acc.reset();
     vos::Bypass bypass;
     if(peerFd >= 0) ::close(peerFd);
@@ -350,6 +354,8 @@ int main()
             else har::obs("ret none");
           }
         });
+      } else if((w[0] == "recvhold" || w[0] == "recvfromhold") && w.size() == 2 && !(w[0] == "recvhold" ? bool(c.tcpb) : bool(c.udpb))) {
+        // the socket was handed to a driver (or never existed): nothing to do
       } else if((w[0] == "recvhold" || w[0] == "recvfromhold") && w.size() == 2) {
         // buffered receive that KEEPS the buffer (C10: receive pools)
         auto T = Duration(std::stoll(w[1]));
@@ -370,6 +376,32 @@ int main()
             har::obs("ret none");
           }
         });
+      } else if(w[0] == "toasync") {
+        // hand the buffered TCP socket over to a driver: from now on the driver receives with the SAME pool
+        if(c.tcpb && !c.tcpa) {
+          c.driver.emplace();
+          Ctx *cp = &c;
+          c.tcpa.emplace(std::move(*c.tcpb), *c.driver,
+            [cp](BufferPtr buf) {
+              auto it = cp->bufOrd.find(buf.get());
+              size_t ord = (it == cp->bufOrd.end() ? cp->bufOrd.emplace(buf.get(), cp->bufOrd.size()).first->second : it->second);
+              har::obs("arx " + std::to_string(ord) + " " + std::to_string(buf->size()));
+              cp->heldBufs.emplace_back(ord, std::move(buf));   // the "user" keeps it until a dropbuf
+            },
+            [](Address, char const *reason) {
+              har::obs(std::string("adisc ") + (std::string(reason) == "out of buffers" ? "outofbuffers" : "other"));
+            });
+          c.tcpb.reset();
+          har::obs("async");
+        }
+      } else if(w[0] == "astep") {
+        if(c.tcpa) {
+          Guarded(c, [&]() {
+            c.driver->Step(Duration(0));
+            ReportSys(c);
+            har::obs("ret astep");
+          });
+        }
       } else if(w[0] == "dropbuf" && w.size() == 2) {
         if(!c.heldBufs.empty()) {
           auto k = std::stoul(w[1]) % c.heldBufs.size();
